@@ -45,7 +45,10 @@ type cliResult struct {
 }
 
 func runCLI(h *harness.H, dir string, c *caseC18) cliResult {
-	bin := filepath.Join(h.Root, "bin", "grits")
+	bin := os.Getenv("VERIF_CLI")
+	if bin == "" {
+		bin = filepath.Join(h.Root, "bin", "grits")
+	}
 	file := filepath.Join(dir, "prog.grits")
 	if c.Class != "missing" {
 		os.WriteFile(file, []byte(c.Text), 0644)
